@@ -1154,6 +1154,71 @@ def _matcher(which):
     return match
 
 
+# ---------------------------------------------------------------------------
+# extra: constructor keywords on classes with invalidated_by dependants (outside the Lean model's grammar; real code
+# + the property text): every keyword given to the constructor must be what the instance holds afterwards, whatever
+# else the constructor stores (fixed finding ec7fc83: storing the overflow attribute ran the invalidation of "*")
+# ---------------------------------------------------------------------------
+
+
+def extra(tier, rng):
+    from typing import Any, Dict, List
+
+    from spec_classes import Attr, spec_class, spec_property
+
+    evaluations, violations, keys = 0, [], []
+    for overflow in (None, "extra"):
+        for star in ("*", ["x"], ["extra"], []):
+            for inherit in (False, True):
+                opts = {"init_overflow_attr": overflow} if overflow else {}
+
+                @spec_class(bootstrap=True, **opts)
+                class O:
+                    x: int = 0
+                    note: str = Attr(default="dflt", invalidated_by=star)
+                    tags: List[int] = Attr(default_factory=list, invalidated_by=star)
+                    label: str
+
+                    @spec_property(cache=True, overridable=True, invalidated_by=star)
+                    def label(self):
+                        return f"x={self.x}"
+
+                cls = O
+                if inherit:
+
+                    @spec_class(bootstrap=True)
+                    class OS(O):
+                        y: int = 1
+
+                    cls = OS
+                for kw in (
+                    {"note": "abc"},
+                    {"x": 1, "note": "abc"},
+                    {"note": "abc", "x": 1},
+                    {"tags": [1], "note": ""},
+                    {"x": 0, "note": "", "tags": []},
+                    {"label": "mine", "x": 2},
+                    {"x": 2, "label": "mine"},
+                ):
+                    for extra_kw in ({}, {"foo": 3}, {"foo": [1], "bar": None}):
+                        if extra_kw and not overflow:
+                            continue
+                        evaluations += 1
+                        keys.append((overflow, str(star), inherit, tuple(kw), tuple(extra_kw)))
+                        case = {"extra": "ctor-invalidation", "overflow": overflow, "invalidated_by": star, "subclass": inherit, "kw": {k: repr(v) for k, v in kw.items()}, "unknown": sorted(extra_kw)}
+                        try:
+                            o = cls(**kw, **extra_kw)
+                        except Exception as e:  # noqa: BLE001
+                            violations.append({"case": case, "violation": [f"{cls.__name__}(**{kw}, **{extra_kw}) raised {type(e).__name__}: {e}"]})
+                            continue
+                        bad = [f"{k}: given {v!r}, holds {getattr(o, k, '<missing>')!r}" for k, v in kw.items() if getattr(o, k, "<missing>") != v]
+                        if overflow and getattr(o, overflow, None) != extra_kw:
+                            bad.append(f"{overflow}: holds {getattr(o, overflow, None)!r}, expected exactly the unknown keywords {extra_kw!r}")
+                        if bad:
+                            violations.append({"case": case, "violation": [f"{cls.__name__}(**{kw}, **{extra_kw}): " + "; ".join(bad)]})
+    return {"evaluations": evaluations, "nontrivial": keys, "violations": violations, "disagreements": [], "info": {"constructions_with_dependants": evaluations}}
+
+
 KNOWN_MATCHERS = {
     "diamond_second_parent_default": _matcher("diamond"),
     "plain_subclass_key_default": _matcher("plainkey"),
